@@ -83,7 +83,7 @@ CHECKS = {
             "the box numbering; the sphere mesh (SphereGrid.v: twelve mapped blocks projected on the sphere, hulls merged by the distance "
             "tolerance, renumbered, stacked in layers), for every number interpretation: n_cell_z*12*n^2 cells of 4+4 vertices (a shell "
             "cell on layer i and on layer i+1), (n_cell_z+1) layers of n_kept nodes, every vertex index is a node, the renumbering after "
-            "the merge is the order-preserving bijection of the kept nodes onto 0..n_kept-1, node i*n_kept+k is shell node k on layer i; over the "
+            "the merge is the order-preserving bijection of the kept nodes onto 0..n_kept-1, node i*n_kept+k is shell node k on layer i, no node is merged into a merged-away node when closeness of hull nodes is transitive; over the "
             "reals every node of layer i lies on the sphere of radius inner + i*(outer-inner)/n_cell_z (layer 0 = inner, last = outer). Not a theorem: XML writing (vtu11; all five "
             "write modes are decoded and compared with the ASCII file). Tie: connectivity of the binary's VTU vs the extracted model for "
             "boxes, chunks, annulus and sphere; the sphere's node coordinates and Depth as exact binary64 values (RawBinary file) vs the "
